@@ -430,4 +430,136 @@ theorem readMemory64List_enc (ms : MemSizes) {s all : Bytes} {e : Endian} {off :
   rw [res_bind_ok (res_pure _), res_bind_ok (res_alloc _ _ _)]
   simp [hr1, M.ofExcept]
 
+/-! ## strings -/
+
+/-- a Unicode scalar value: what a Rust `char` can hold ("arbitrary well-formed UTF-16") -/
+def ValidScalar (c : Nat) : Prop := c < 0xD800 ∨ (0xE000 ≤ c ∧ c < 0x110000)
+
+theorem leBytes_two (u : Nat) : leBytes 2 u = [UInt8.ofNat (u % 256), UInt8.ofNat (u / 256 % 256)] := by
+  simp [leBytes]
+
+theorem utf16Units_encUnits (e : Endian) (us : List Nat) (h : ∀ u ∈ us, u < 65536) :
+    utf16Units e (encUnits e us) = us := by
+  induction us with
+  | nil => simp [encUnits, utf16Units]
+  | cons u us ih =>
+    have hu : u < 65536 := h u (by simp)
+    have ih' := ih (fun x hx => h x (by simp [hx]))
+    simp only [encUnits, List.flatMap_cons] at ih' ⊢
+    cases e with
+    | little =>
+      simp only [encNat, leBytes_two, List.cons_append, List.nil_append, utf16Units, ih', UInt8.toNat_ofNat']
+      congr 1
+      omega
+    | big =>
+      simp only [encNat, leBytes_two, List.reverse_cons, List.reverse_nil, List.nil_append, List.cons_append,
+        utf16Units, ih', UInt8.toNat_ofNat']
+      congr 1
+      omega
+
+theorem utf16Decode_cons_bmp (u : Nat) (rest : List Nat) (h1 : isHighSurrogate u = false) (h2 : isLowSurrogate u = false) :
+    utf16Decode (u :: rest) = (utf16Decode rest).map (u :: ·) := by
+  cases rest with
+  | nil => simp [utf16Decode, h1, h2]
+  | cons l r =>
+    rw [utf16Decode]
+    simp only [h1, h2, Bool.false_eq_true, if_false]
+    cases utf16Decode (l :: r) <;> rfl
+
+theorem utf16Decode_pair (u l : Nat) (rest : List Nat) (h1 : isHighSurrogate u = true) (h2 : isLowSurrogate l = true) :
+    utf16Decode (u :: l :: rest) = (utf16Decode rest).map ((0x10000 + (u - 0xD800) * 1024 + (l - 0xDC00)) :: ·) := by
+  rw [utf16Decode]
+  simp only [h1, h2, if_true]
+  cases utf16Decode rest <;> rfl
+
+/-- **names from arbitrary well-formed UTF-16 decode back** (non-BMP included) -/
+theorem utf16Decode_units (cs : List Nat) (h : ∀ c ∈ cs, ValidScalar c) :
+    utf16Decode (cs.flatMap utf16UnitsOf) = some cs := by
+  induction cs with
+  | nil => simp [utf16Decode]
+  | cons c cs ih =>
+    have hc := h c (by simp)
+    have ih' := ih (fun x hx => h x (by simp [hx]))
+    simp only [List.flatMap_cons]
+    by_cases hb : c < 0x10000
+    · have h1 : isHighSurrogate c = false := by
+        unfold isHighSurrogate ValidScalar at *
+        simp only [Bool.and_eq_false_imp, decide_eq_true_eq, decide_eq_false_iff_not]
+        omega
+      have h2 : isLowSurrogate c = false := by
+        unfold isLowSurrogate ValidScalar at *
+        simp only [Bool.and_eq_false_imp, decide_eq_true_eq, decide_eq_false_iff_not]
+        omega
+      simp only [utf16UnitsOf, hb, if_true, List.cons_append, List.nil_append]
+      rw [utf16Decode_cons_bmp c _ h1 h2, ih']
+      rfl
+    · have hlt : c < 0x110000 := by unfold ValidScalar at hc; omega
+      have h1 : isHighSurrogate (0xD800 + (c - 0x10000) / 1024) = true := by
+        unfold isHighSurrogate
+        simp only [Bool.and_eq_true, decide_eq_true_eq]
+        omega
+      have h2 : isLowSurrogate (0xDC00 + (c - 0x10000) % 1024) = true := by
+        unfold isLowSurrogate
+        simp only [Bool.and_eq_true, decide_eq_true_eq]
+        omega
+      simp only [utf16UnitsOf, hb, if_false, List.cons_append, List.nil_append]
+      rw [utf16Decode_pair _ _ _ h1 h2, ih']
+      have hval : 0x10000 + (0xD800 + (c - 0x10000) / 1024 - 0xD800) * 1024 + (0xDC00 + (c - 0x10000) % 1024 - 0xDC00) = c := by
+        omega
+      rw [hval]
+      rfl
+
+theorem utf16UnitsOf_lt (c : Nat) (h : ValidScalar c) : ∀ u ∈ utf16UnitsOf c, u < 65536 := by
+  intro u hu
+  unfold utf16UnitsOf at hu
+  unfold ValidScalar at h
+  split at hu
+  · simp at hu; omega
+  · simp at hu; omega
+
+theorem encUnits_length (e : Endian) (us : List Nat) : (encUnits e us).length = 2 * us.length := by
+  induction us with
+  | nil => rfl
+  | cons u us ih => simp only [encUnits, List.flatMap_cons, List.length_append, encNat_length, List.length_cons] at ih ⊢; omega
+
+theorem encString_length (e : Endian) (cs : List Nat) : (encString e cs).length = stringSize cs := by
+  simp [encString, stringSize, encUnits_length]
+
+/-- **`read_string_utf16` on an encoded `MINIDUMP_STRING`** -/
+theorem readStringUtf16_enc {b : Bytes} {off : Nat} {e : Endian} {cs : List Nat} (hv : ∀ c ∈ cs, ValidScalar c)
+    (h : Has b.toList off (encString e cs)) (hb : b.size < 2 ^ 32) :
+    (readStringUtf16 b off e).res = .ok (some (cs, off + stringSize cs)) := by
+  have hU := U32_le_U64
+  have hle := h.size_le
+  rw [encString_length] at hle
+  simp only [stringSize] at hle
+  simp only [encString] at h
+  have hsz : readU32 b off e = some (2 * (cs.flatMap utf16UnitsOf).length) :=
+    readScalar_has h.left (by rw [pow_256_4]; omega)
+  have hunits := h.right
+  simp only [encNat_length] at hunits
+  unfold readStringUtf16
+  simp only [hsz]
+  have hmod : ¬ (2 * (cs.flatMap utf16UnitsOf).length % 2 ≠ 0) := by omega
+  simp only [hmod, if_false]
+  have hadd : (usizeAdd "read_string_utf16: *offset + size" (off + 4) (2 * (cs.flatMap utf16UnitsOf).length)).res =
+      .ok (off + 4 + 2 * (cs.flatMap utf16UnitsOf).length) := res_usizeAdd (by unfold USIZE_MAX; omega)
+  rw [res_bind_ok hadd]
+  rw [if_neg (by omega)]
+  have hslice := res_sliceRange (site := "read_string_utf16: &bytes[*offset..*offset + size]") (b := b)
+    (lo := off + 4) (hi := off + 4 + 2 * (cs.flatMap utf16UnitsOf).length) ⟨by omega, by omega⟩
+  rw [res_bind_ok hslice, res_bind_ok (res_alloc _ _ _)]
+  have hext : (b.extract (off + 4) (off + 4 + 2 * (cs.flatMap utf16UnitsOf).length)).toList =
+      encUnits e (cs.flatMap utf16UnitsOf) := by
+    have := hunits.extract
+    rw [encUnits_length] at this
+    exact this
+  have hlt : ∀ u ∈ cs.flatMap utf16UnitsOf, u < 65536 := by
+    intro u hu
+    obtain ⟨c, hc, hu'⟩ := List.mem_flatMap.mp hu
+    exact utf16UnitsOf_lt c (hv c hc) u hu'
+  rw [hext, utf16Units_encUnits e _ hlt, utf16Decode_units cs hv]
+  simp only [stringSize, Nat.add_assoc]
+  rfl
+
 end MdModel.Encode
